@@ -137,6 +137,18 @@ def chainRun (k : Kinds) (id : Ident) :
       | .ok _ => chainRun k id w rest drops (reads ++ ["n"])
       | .ub e => .ub e
 
+/-- `churn id n`: `n` times remove the (component-less) entity and insert a new one — the slot's
+generation counter is driven up by `n` (C02: no identifier may come back). -/
+def churnRun : Nat → World → Ident → Out (World × Ident)
+  | 0, w, id => .ok (w, id)
+  | n + 1, w, id =>
+    match w.remove id with
+    | .ub e => .ub e
+    | .ok (w1, _) =>
+      match w1.insert [] [] with
+      | .ub e => .ub e
+      | .ok (w2, id2) => churnRun n w2 id2
+
 /-- Run one op on the model.  Returns the new state and the result text (without the `r `). -/
 def runOp (st : St) (wi : Nat) (name : String) (args : List String) : St × String :=
   let k := st.kinds
@@ -228,6 +240,15 @@ def runOp (st : St) (wi : Nat) (name : String) (args : List String) : St × Stri
         | .ok (w', drops, reads) =>
           (st.setW wi (some w'),
            s!"ok drops={dropsStr k drops} reads={if reads.isEmpty then "-" else String.intercalate "," reads}")
+        | .ub e => (st, ubStr e)
+    | _, _ => bad
+  | "churn", [idS, nS] =>
+    match parseIdent idS, nS.toNat? with
+    | some id, some n =>
+      withW fun w =>
+        if !(w.hasEntry id) then (st, "none") else
+        match churnRun n w id with
+        | .ok (w', last) => (st.setW wi (some w'), s!"ok id={last.index}.{last.gen}")
         | .ub e => (st, ubStr e)
     | _, _ => bad
   | "reserve", [shapeS, _n] =>
@@ -498,6 +519,16 @@ def specOnResult (st : St) (toks : List String) : St × List String :=
           let (st, o) := if has then checkDrops st (e.vals.filter (fun x => x.ty == c)) else (st, [])
           (st.setS wi (some (s.write id (mkVal k c v))), o)
       | _, _, _, _ => (st, [])
+    | "churn", [idS, nS] =>
+      match st.getS wi, parseIdent idS, (fieldOf toks "id").bind parseIdent with
+      | some s, some id, some last =>
+        if (s.find id).isNone then fail st "spec" s!"churn on dead identifier {id.toStr} returned {status}" else
+        if nS.toNat? == some 0 then (st, []) else
+        match (s.remove id).insert last [] with
+        | some s' => (st.setS wi (some s'), [])
+        | none => let (st, o) := fail st "spec" s!"ident-reused {last.toStr} was issued before in this world"
+                  (st.setS wi none, o)
+      | _, _, _ => (st, [])
     | "chain", [idS, stepsS] =>
       match st.getS wi, parseIdent idS, parseChain stepsS with
       | some s, some id, some steps =>
